@@ -1,11 +1,33 @@
 """Which units decide which property (DESIGN.md 7, appendix D.2)."""
-from . import api_ops
+from . import api_ops, seam, walks
 
 VC = ("contract-based deductive verification: verification conditions generated on every run from the real ASTs "
       "(symbolic execution of each function against its sidecar contract, callee contracts at the seams) and "
       "discharged by z3 (cvc5 for z3-unknowns); ")
 
 PROPS = {
+    "C01": {
+        "units": [walks.units_c01], "level": "other", "design_ref": "7.1",
+        "technique": VC + "multiwalk verified with an inductive loop invariant over an uninterpreted, totally ordered OID "
+                     "sort (axioms Lean-checked) against an RFC 3416 agent model; database, OIDs, iteration count unbounded; "
+                     "number of roots and listing order enumerated (proved-shape-bounded)",
+        "trusted_base": ["Client._send used by its contract above the seam", "RFC 3416 agent model (environment)",
+                         "x690 ObjectIdentifier order/containment contract (assumed, validated by enumeration)"],
+    },
+    "C02": {
+        "units": [walks.units_c02], "level": "other", "design_ref": "7.2",
+        "technique": VC + "multiwalk with the real bulk fetcher (closure, bulkget) under the same invariant and postcondition "
+                     "as the GETNEXT walk; GETBULK agent model with every RFC-allowed cut; roots, repetitions and cuts enumerated",
+        "trusted_base": ["Client._send used by its contract above the seam", "RFC 3416 agent model (environment)",
+                         "x690 ObjectIdentifier order/containment contract (assumed, validated by enumeration)"],
+    },
+    "C07": {
+        "units": [api_ops.units, seam.units], "level": "other", "design_ref": "7.7",
+        "technique": VC + "every clock read is a fresh symbolic integer; the id placed in the PDU must equal the id "
+                     "validated (caller-side obligation at the _send seam); _send itself verified against its contract",
+        "trusted_base": ["mpm.encode / mpm.decode / sender are contract slots in the _send unit (any bytes, any response id)",
+                         "x690 Sequence.__iter__, OctetString/Integer.pythonize executed from the x690 source"],
+    },
     "C04": {
         "units": [api_ops.units], "level": "other", "design_ref": "7.4",
         "technique": VC + "request/response list lengths enumerated (proved-shape-bounded), all OIDs, values, ids symbolic",
